@@ -181,7 +181,7 @@ def stale_failure_record(sid, timeout_ms=400):
     return s.done()
 
 
-def stale_slow_body(sid, api="error", timeout_ms=400):
+def stale_slow_body(sid, api="error", timeout_ms=400, size=2000):
     """a submission for request 2 whose headers (and request id) arrive while request 2 is in flight, but whose body is
     only completed - by a helper that outlives the runtime - after request 2 timed out, the environment was reset and
     request 3 was dispatched: it is refused (400) and must not move the new runtime's state"""
@@ -195,7 +195,7 @@ def stale_slow_body(sid, api="error", timeout_ms=400):
     s.wait(tags["rt"])
     s.hold("drv.body:b1", 1)
     kw = {"errType": "Function.Stale"} if api == "error" else {}
-    post = s.call("rt", api, async_=True, id="current", size=2000, seed=5, headers={"X-Verif-Slow-Body": "b1", "X-Verif-Detached": "1"}, **kw)
+    post = s.call("rt", api, async_=True, id="current", size=size, seed=5, headers={"X-Verif-Slow-Body": "b1", "X-Verif-Detached": "1"}, **kw)
     s.until_held("drv.body:b1")
     s.wait(it)                      # the invocation times out, reset, the runtime is killed
     m = s.mark()
@@ -235,6 +235,41 @@ def final_release(sid, timeout_ms=1000):
     s.call("rt", "response", id="current", body="answer-of-request-3")
     tags["rt"] = s.poll("rt")
     s.wait(i2)
+    s.round(tags, {})
+    return s.done()
+
+
+def late_done(sid, kind, timeout_ms=400):
+    """the completion message of invocation 2 is held back (its sender is stopped while it builds the message) until
+    invocation 2 has timed out, the reset has drained the channel and invocation 3 is being served by a new runtime:
+    the late message - success (kind ok) or failure (kind fail: the runtime had exited) - is recognised by its id and
+    dropped; invocation 3 completes with its own answer"""
+    s = Scn(sid, ext=[], timeout_ms=timeout_ms, opWaitMs=6000)
+    s.meta(family=FAMILY, schedule="late-done", kind=kind)
+    s.init()
+    s.await_exec(kind="rt")
+    tags = {"rt": s.poll("rt")}
+    s.round(tags, {})
+    s.hold("server.stateGetter", 1, skip=1)     # (Reserve asks for the state too: that one passes)
+    i2 = s.invoke(size=5, seed=7)
+    s.wait(tags["rt"])
+    if kind == "ok":
+        s.call("rt", "response", id="current", body="answer-of-request-2")
+        tags["rt"] = s.poll("rt")
+    else:
+        s.exit("rt", code=1)
+    s.until_held("server.stateGetter")
+    s.wait(i2)                          # the timeout expires, reset
+    m = s.mark()
+    i3 = s.invoke(size=6, seed=8)
+    s.await_exec(kind="rt", since=m)
+    p3 = s.call("rt", "next", async_=True)
+    s.wait(p3)                          # request 3 is with the new runtime
+    s.release("server.stateGetter")     # now the completion message of request 2 goes out
+    s.sleep(60)
+    s.call("rt", "response", id="current", body="answer-of-request-3")
+    tags["rt"] = s.poll("rt")
+    s.wait(i3)
     s.round(tags, {})
     return s.done()
 
@@ -366,7 +401,11 @@ def scenarios(prefix, which=("watch-late-cancel", "clear-vs-invoke", "ghost-invo
           "stale-shutdown": stale_shutdown,
           "stale-failure-record": stale_failure_record,
           "final-release": final_release,
+          "late-done-ok": lambda sid: late_done(sid, "ok"),
+          "late-done-fail": lambda sid: late_done(sid, "fail"),
           "stale-error-slow-body": lambda sid: stale_slow_body(sid, "error"),
+          # ... and a stale /response above the size limit: refused for its id, whatever its size
+          "stale-response-slow-big": lambda sid: stale_slow_body(sid, "response", size=6 * 1024 * 1024 + 100 + 5000),
           "stale-error-in-flight": lambda sid: stale_in_flight(sid, "error"),
           "stale-response-in-flight": lambda sid: stale_in_flight(sid, "response")}
     for i, w in enumerate(which):
